@@ -21,6 +21,7 @@ def showC2S (sid : Sid) : C2S Nat → String
 structure CWState where
   cfg : CCfg := {}
   cli : Cli Nat := {}
+  invokes : List (Sid × InvStage Nat) := []     -- unary calls made through Invoke and the call each waits for
 
 def showCObs (st : CWState) (o : COut Nat) : String :=
   if st.cli.streams.any (·.2.unsupported) then "UNSUPPORTED" else
@@ -28,6 +29,40 @@ def showCObs (st : CWState) (o : COut Nat) : String :=
   let ds := sortBy (· < ·) (o.dones.map (fun (sid, op, r) => s!"{sid}.{op}:{showRes r}"))
   let es := sortBy (· < ·) o.events
   s!"F=[{joinWith " " fs}] D=[{joinWith " " ds}] E=[{joinWith ";" es}] T=[{showIds st.cli.table}] L={st.cli.lastStreamID} G={if st.cli.finished.isSome then 0 else 1},{cliWatchers st.cli},0"
+
+/-- advance the `Invoke` scripts whose pending call completed in `o` (their
+    stream-level completions are internal to `Invoke`: they are replaced by the
+    final `invoke` result when the script ends) -/
+def settleInvokes : Nat → CWState → COut Nat → CWState × COut Nat
+  | 0, st, o => (st, o)
+  | fuel + 1, st, o =>
+    match st.invokes.findSome? (fun (sid, stage) =>
+        (o.dones.find? (fun d => d.1 == sid && d.2.1 == stage.waitsFor)).map (fun d => (sid, stage, d.2.2))) with
+    | none => (st, o)
+    | some (sid, stage, res) =>
+      -- drop the first matching internal completion
+      let rec dropFirst : List (Sid × String × Res Nat) → List (Sid × String × Res Nat)
+        | [] => []
+        | d :: ds => if d.1 == sid && d.2.1 == stage.waitsFor then ds else d :: dropFirst ds
+      let o1 : COut Nat := { o with dones := dropFirst o.dones }
+      match Inv.next stage res with
+      | .inr final =>
+        let st1 := { st with invokes := st.invokes.filter (·.1 != sid) }
+        -- a second response makes Invoke cancel the stream
+        let (st2, o2) := match stage, res with
+          | .recv2 _, .msg _ =>
+            let (cli, oc) := st1.cli.onCall st1.cfg sid .cancel
+            ({ st1 with cli := cli }, o1.add oc)
+          | _, _ => (st1, o1)
+        settleInvokes fuel st2 { o2 with dones := o2.dones ++ [(sid, "invoke", final)] }
+      | .inl (call, stage') =>
+        let (cli, oc) := st.cli.onCall st.cfg sid call
+        let st1 := { st with cli := cli, invokes := st.invokes.map (fun e => if e.1 == sid then (sid, stage') else e) }
+        settleInvokes fuel st1 (o1.add oc)
+
+def finishC (st : CWState) (o : COut Nat) : CWState × String :=
+  let (st', o') := settleInvokes 64 st o
+  (st', showCObs st' o')
 
 def parseS2C (kind : String) (args : List String) : Option (S2C Nat) :=
   match kind with
@@ -57,13 +92,13 @@ def cworldCmd (st : CWState) (cmd : String) (args : List String) : Option (CWSta
     let cfg : CCfg := { awaitSettings := kv args "settings" == some "1",
                         revs := Negotiate.supportedRevisions (kv args "disable" == some "1") }
     let st' : CWState := { cfg := cfg, cli := Cli.start cfg }
-    some (st', showCObs st' {})
+    some (finishC st' {})
   | "c.frame" =>
     match kvInt args "sid", parseS2C kind args with
     | some sid, some f =>
       let (cli, o) := st.cli.onFrame st.cfg sid f
       let st' := { st with cli := cli }
-      some (st', showCObs st' o)
+      some (finishC st' o)
     | _, _ => some (st, "bad-op")
   | "c.new" =>
     -- c.new shape=U|CS|SS|BD m=<hex> md=.. [timeout=<ns>] [cancelled=1]
@@ -81,10 +116,26 @@ def cworldCmd (st : CWState) (cmd : String) (args : List String) : Option (CWSta
         let (cli1, o1) := cli.onFrame st.cfg sid (.headers [("a", ["1"])])
         let (cli2, o2) := cli1.onFrame st.cfg sid (.msg n (List.replicate n 0))
         let st' := { st with cli := cli2 }
-        some (st', showCObs st' ((o.add o1).add o2))
+        some (finishC st' ((o.add o1).add o2))
       | _, _ =>
         let st' := { st with cli := cli }
-        some (st', showCObs st' o)
+        some (finishC st' o)
+  | "c.invoke" =>
+    -- c.invoke n=<request bytes> [timeout=<ns>]: ch.Invoke on the unary method; the script sends the request at once
+    match (kv args "m").bind parseHex, kvNat args "n" with
+    | some m, some n =>
+      let (cli, o, sid?) := st.cli.newStream st.cfg false false m [] (kvNat args "timeout") false
+      match sid? with
+      | none =>
+        -- newStream failed: Invoke returns that error
+        let o' : COut Nat := { o with dones := o.dones.map (fun d => if d.2.1 == "new" then (d.1, "invoke", d.2.2) else d) }
+        some (finishC { st with cli := cli } o')
+      | some sid =>
+        let o0 : COut Nat := { o with dones := o.dones.filter (fun d => d.2.1 != "new") }
+        let (cli1, o1) := cli.onCall st.cfg sid (.send (List.replicate n 0))
+        let st1 := { st with cli := cli1, invokes := st.invokes ++ [(sid, .sending)] }
+        some (finishC st1 (o0.add o1))
+    | _, _ => some (st, "bad-op")
   | "c.call" =>
     match kvInt args "sid" with
     | none => some (st, "bad-op")
@@ -105,17 +156,17 @@ def cworldCmd (st : CWState) (cmd : String) (args : List String) : Option (CWSta
       | some c =>
         let (cli, o) := st.cli.onCall st.cfg sid c
         let st' := { st with cli := cli }
-        some (st', showCObs st' o)
+        some (finishC st' o)
   | "c.tick" =>
     match kvNat args "ns" with
     | none => some (st, "bad-op")
     | some d =>
       let (cli, o) := st.cli.tick d
       let st' := { st with cli := cli }
-      some (st', showCObs st' o)
-  | "c.eof" => let (cli, o) := st.cli.carrierEnds none; let st' := { st with cli := cli }; some (st', showCObs st' o)
-  | "c.fail" => let (cli, o) := st.cli.carrierEnds (some "err:carrier_broke"); let st' := { st with cli := cli }; some (st', showCObs st' o)
-  | "c.close" => let (cli, o) := st.cli.close none false; let st' := { st with cli := cli }; some (st', showCObs st' o)
+      some (finishC st' o)
+  | "c.eof" => let (cli, o) := st.cli.carrierEnds none; let st' := { st with cli := cli }; some (finishC st' o)
+  | "c.fail" => let (cli, o) := st.cli.carrierEnds (some "err:carrier_broke"); let st' := { st with cli := cli }; some (finishC st' o)
+  | "c.close" => let (cli, o) := st.cli.close none false; let st' := { st with cli := cli }; some (finishC st' o)
   | "x.closeerr" =>
     -- a forward tunnel over real grpc-go ended by `cause`: what Done()/Err() report and what a later RPC does,
     -- according to the client endpoint model (Cli.close / Cli.carrierEnds / Cli.newStream)
